@@ -73,22 +73,37 @@ Proof.
   - apply Z.ltb_ge in E1. lia.
 Qed.
 
-Lemma sweep_t_slot_TW nowv t : (0 <= t <= nowv)%Z -> (nowv < t + 7)%Z ->
-  forall fuel s due,
-  TA s -> checkT s = (nowv + 1)%Z -> TW due t s ->
-  (length (wheel_get (twheel s) (slot_of t)) < fuel)%nat ->
-  let '(s', due') := sweep_t_slot fuel s (slot_of t) nowv due in
-  TW due' t s' /\ wheel_get (twheel s') (slot_of t) = [] /\ tlong s' = tlong s \/ True ->
-  TW due' t s' /\ wheel_get (twheel s') (slot_of t) = [].
+(* frames that cannot create records: C := fun _ => False *)
+Definition NoC (c : cmd) : Prop := False.
+Notation nframe := (tframe NoC).
+
+Lemma nframe_cframe s s' : nframe s s' -> cframe s s'.
+Proof. apply tframe_mono. intros c []. Qed.
+
+Lemma nframe_absent s s' r : nframe s s' -> aget (store s) r = None -> aget (store s') r = None.
 Proof.
-Abort.
+  intros F G. destruct (aget (store s') r) as [l'|] eqn:G'; auto.
+  destruct (tf_cmd _ _ _ F r l' G') as [[]|(l & A & _)]. congruence.
+Qed.
+
+Lemma nfinish_frame s0 res : PK s0 -> nframe s0 (fst (fst res)) -> nframe s0 (fst (finish res)).
+Proof. intros [P K]. apply finish_frame_p; auto. intros c []. Qed.
+
+(* a due list containing a freed record: doTimeOut will fail on it (use after free) *)
+Definition Bad (due : list ref) (s : db) : Prop := exists r, In r due /\ aget (store s) r = None.
+
+Lemma Bad_frame due s s' : Bad due s -> nframe s s' -> Bad due s'.
+Proof. intros (r & I & G) F. exists r. split; auto. eapply nframe_absent; eauto. Qed.
+
+Lemma Bad_incl due due' s : incl due due' -> Bad due s -> Bad due' s.
+Proof. intros I (r & A & G). exists r. split; auto. Qed.
 
 Lemma sweep_t_slot_TW nowv t : (0 <= t <= nowv)%Z -> (nowv < t + 7)%Z ->
   forall fuel s due,
   TA s -> checkT s = (nowv + 1)%Z -> TW due t s ->
   (length (wheel_get (twheel s) (slot_of t)) < fuel)%nat ->
   let '(s', due') := sweep_t_slot fuel s (slot_of t) nowv due in
-  TW due' t s' /\ wheel_get (twheel s') (slot_of t) = [].
+  (TW due' t s' /\ wheel_get (twheel s') (slot_of t) = []) \/ Bad due' s'.
 Proof.
   intros R0 LAG. set (slot := slot_of t).
   induction fuel as [|f IH]; intros s due T CK W LEN; [lia|]. cbn [sweep_t_slot].
@@ -100,7 +115,6 @@ Proof.
   assert (wheel_get (twheel s1) slot = rest) as WG1 by (unfold s1; cbn; rewrite wheel_get_aset, N.eqb_refl; auto).
   assert (forall k, k <> slot -> wheel_get (twheel s1) k = wheel_get (twheel s) k) as WO.
   { intros k NE. unfold s1; cbn. rewrite wheel_get_aset. destruct (slot =? k) eqn:E; auto. apply N.eqb_eq in E; congruence. }
-  (* every live record other than an r that only occurred at the popped head keeps its place *)
   assert (forall x lx, tlive s1 x lx -> x <> r -> where_ok due t s1 x lx) as W1.
   { intros x lx LV NE. destruct (W x lx LV) as [I|[(d & R & I)|(R & I)]]; [left; auto| |right; right; auto].
     right; left. exists d. split; auto. destruct (N.eq_dec (slot_of d) slot) as [E|E].
@@ -110,15 +124,13 @@ Proof.
   destruct (aget (store s) r) as [l|] eqn:G.
   - rewrite (getl_some _ _ _ G). cbv iota.
     destruct (l_timeouted l) eqn:LV; cbn [negb].
-    + (* tombstone *)
-      pose proof (tframe_unref_mgr core_cmd s1 r (l_key l)) as F. cbv zeta in F.
+    + pose proof (tframe_unref_mgr core_cmd s1 r (l_key l)) as F. cbv zeta in F.
       match type of F with tframe _ _ ?x => specialize (IH x due (TA_frame _ _ T1 F)) end.
       rewrite (tf_checkT _ _ _ F), (tf_wheel _ _ _ F), WG1 in IH. apply IH; auto; [|cbn in LEN; lia].
       eapply TW_frame; [|exact F]. intros x lx LVx. apply W1; auto. intros ->. destruct LVx as [Gx Lx].
       change (store s1) with (store s) in Gx. congruence.
     + destruct (nowv <? l_tT l)%Z eqn:LT.
-      * (* re-check later *)
-        apply Z.ltb_lt in LT.
+      * apply Z.ltb_lt in LT.
         set (s2 := updl s1 r (fun l0 => l0 <| l_tcc := (l_tcc l0 + 1) mod 256 |>)).
         assert (cframe s1 s2) as F2 by (apply tframe_updl; updl_side).
         pose proof (TA_frame _ _ T1 F2) as T2.
@@ -129,6 +141,9 @@ Proof.
         assert (checkT s2 = (nowv + 1)%Z) as CK2 by (unfold s2; rewrite updl_checkT; exact CK).
         destruct (TA_add_timeout_live s2 r l2 T2 LV2) as [T3 MONO]. { rewrite CK2. cbn. lia. }
         pose proof (add_timeout_same s2 r) as SB.
+        assert (forall x lx, aget (store s2) x = Some lx -> x <> r -> aget (store s1) x = Some lx) as OTH.
+        { intros x lx Gx NE. unfold s2 in Gx. rewrite aget_updl in Gx.
+          destruct (r =? x) eqn:EQ; auto. apply N.eqb_eq in EQ. congruence. }
         assert (TW due t (add_timeout s2 r) /\ wheel_get (twheel (add_timeout s2 r)) slot = rest) as [W3 WG3].
         { destruct (QUEUE_MAX_WAIT <? l_tcc l2) eqn:TC.
           - destruct (add_timeout_long s2 r l2 G2 TC) as (WH & L & ST). cbv zeta in *.
@@ -138,8 +153,7 @@ Proof.
             + apply N.eqb_eq in EQ; subst x. injection Gx as <-. right; right. cbn. split; [lia|].
               rewrite L. apply in_wheel_push. right; auto.
             + apply N.eqb_neq in EQ.
-              assert (tlive s1 x lx) as LX1.
-              { split; auto. unfold s2 in Gx. rewrite aget_updl in Gx. apply N.eqb_neq in EQ. rewrite EQ in Gx. auto. }
+              assert (tlive s1 x lx) as LX1 by (split; auto).
               destruct (W1 x lx LX1 ltac:(auto)) as [I|[(d & R & I)|(R & I)]]; [left; auto| |].
               * right; left. exists d. split; auto. rewrite WH. unfold s2. rewrite updl_twheel. auto.
               * right; right. split; auto. rewrite L. apply in_wheel_push. left. unfold s2. rewrite updl_tlong. auto.
@@ -153,8 +167,7 @@ Proof.
                 exists (tslot_time (nowv + 1) l2). cbn. split; [cbn in R1; lia|].
                 rewrite WH. apply in_wheel_push. right; auto.
               * apply N.eqb_neq in EQ.
-                assert (tlive s1 x lx) as LX1.
-                { split; auto. unfold s2 in Gx. rewrite aget_updl in Gx. apply N.eqb_neq in EQ. rewrite EQ in Gx. auto. }
+                assert (tlive s1 x lx) as LX1 by (split; auto).
                 destruct (W1 x lx LX1 ltac:(auto)) as [I|[(d & R & I)|(R & I)]]; [left; auto| |].
                 -- right; left. exists d. split; auto. rewrite WH. apply in_wheel_push. left.
                    unfold s2. rewrite updl_twheel. auto.
@@ -163,13 +176,170 @@ Proof.
               unfold s2. rewrite updl_twheel. exact WG1. }
         specialize (IH (add_timeout s2 r) due T3).
         rewrite (sb_checkT _ _ SB), WG3 in IH. apply IH; auto. cbn in LEN; lia.
-      * (* due *)
-        apply Z.ltb_ge in LT.
+      * apply Z.ltb_ge in LT.
         specialize (IH s1 (due ++ [r]) T1 CK). rewrite WG1 in IH. apply IH; [|cbn in LEN; lia].
         intros x lx LVx. destruct (N.eq_dec x r) as [->|NE].
         -- left. apply in_app_iff. right; left; auto.
         -- destruct (W1 x lx LVx NE) as [I|[X|X]]; [left; apply in_app_iff; auto|right; left; auto|right; right; auto].
-  - (* freed record: handed to doTimeOut, which fails; the loop stops here *)
-    cbv iota. exfalso.
-    (* a wheel entry whose record is gone: TA does not exclude it, and then the loop stops with the slot non-empty *)
-Abort.
+  - cbv iota. right. exists r. split; [apply in_app_iff; right; left; auto|exact G].
+Qed.
+
+(* the due list only grows *)
+Lemma sweep_t_slot_due nowv slot : forall fuel s due,
+  incl due (snd (sweep_t_slot fuel s slot nowv due)).
+Proof.
+  induction fuel as [|f IH]; intros s due; cbn [sweep_t_slot]; [apply incl_refl|].
+  destruct (wheel_get (twheel s) slot) as [|r rest]; [apply incl_refl|].
+  repeat match goal with |- context [if ?b then _ else _] => destruct b end; cbn [snd];
+    try apply IH; try (eapply incl_tran; [|apply IH]; apply incl_appl, incl_refl).
+  apply incl_appl, incl_refl.
+Qed.
+
+Lemma sweep_long_nframe : forall items s due,
+  nframe s (fst (sweep_long s items true due)) /\ incl due (snd (sweep_long s items true due)).
+Proof.
+  induction items as [|r rest IH]; intros s due; cbn [sweep_long]; [split; [apply tframe_refl|apply incl_refl]|].
+  set (s1 := updl s r (fun l => l <| l_long := false |>)).
+  assert (nframe s s1) as F1 by (apply tframe_updl; updl_side).
+  destruct (negb (l_timeouted (getl s1 r))).
+  - destruct (IH s1 (due ++ [r])) as [A B]. split; [eapply tframe_trans; eauto|].
+    eapply incl_tran; [|exact B]. apply incl_appl, incl_refl.
+  - pose proof (tframe_unref_mgr NoC s1 r (l_key (getl s1 r))) as F. cbv zeta in F.
+    match type of F with tframe _ _ ?x => destruct (IH x due) as [A B] end.
+    split; auto. eapply tframe_trans; [|exact A]. eapply tframe_trans; eauto.
+Qed.
+
+Lemma sweep_long_TW f : forall items s due,
+  TW (due ++ items) f s ->
+  let '(s', due') := sweep_long s items true due in TW due' f s'.
+Proof.
+  induction items as [|r rest IH]; intros s due W; cbn [sweep_long].
+  - rewrite app_nil_r in W. exact W.
+  - set (s1 := updl s r (fun l => l <| l_long := false |>)).
+    assert (cframe s s1) as F1 by (apply tframe_updl; updl_side).
+    pose proof (TW_frame _ _ _ _ W F1) as W1.
+    destruct (l_timeouted (getl s1 r)) eqn:LV; cbn [negb].
+    + pose proof (tframe_unref_mgr core_cmd s1 r (l_key (getl s1 r))) as F. cbv zeta in F.
+      match type of F with tframe _ _ ?x => specialize (IH x due) end. apply IH.
+      eapply TW_frame; [|exact F]. intros x lx LVx.
+      destruct (W1 x lx LVx) as [I|X]; [|right; auto]. left.
+      apply in_app_iff in I. apply in_app_iff. destruct I as [I|[<-|I]]; auto.
+      exfalso. destruct LVx as [Gx Lx]. rewrite (getl_some _ _ _ Gx) in LV. congruence.
+    + apply (IH s1 (due ++ [r])). eapply TW_weaken; [|exact W1].
+      intros x I. rewrite <- app_assoc. exact I.
+Qed.
+
+Lemma lkey_inj a b : (0 <= a)%Z -> (0 <= b)%Z -> lkey a = lkey b -> a = b.
+Proof. unfold lkey. intros. lia. Qed.
+
+Lemma collect_timeouts_TW s t nowv :
+  (0 <= t <= nowv)%Z -> (nowv < t + 7)%Z -> TA s -> checkT s = (nowv + 1)%Z -> TW [] t s ->
+  let '(s', due) := collect_timeouts s t nowv in TW due (t + 1) s' \/ Bad due s'.
+Proof.
+  intros R LAG T CK W. unfold collect_timeouts.
+  pose proof (sweep_t_slot_TA nowv (slot_of t) (10 * length (wheel_get (twheel s) (slot_of t)) + 10) s [] T CK) as A.
+  pose proof (sweep_t_slot_TW nowv t R LAG (10 * length (wheel_get (twheel s) (slot_of t)) + 10) s [] T CK W ltac:(lia)) as B.
+  destruct (sweep_t_slot _ s (slot_of t) nowv []) as [s1 due1].
+  destruct A as (T1 & CK1 & N1 & D1). { intros r l []. }
+  destruct (aget (tlong s1) (lkey t)) as [items|] eqn:G.
+  - set (s2 := s1 <| tlong := adel (tlong s1) (lkey t) |>).
+    destruct (sweep_long_nframe items s2 due1) as [NF INC].
+    pose proof (sweep_long_TW (t + 1) items s2 due1) as X.
+    destruct (sweep_long s2 items true due1) as [s3 due3]. cbn [fst snd] in *.
+    destruct B as [[W1 EMP]|BD].
+    + left. apply X.
+      intros x lx LVx. destruct (W1 x lx LVx) as [I|[(d & RR & I)|(RR & I)]].
+      * left. apply in_app_iff; auto.
+      * right; left. exists d. split; auto. assert (d <> t); [|lia]. intros ->. rewrite EMP in I. destruct I.
+      * destruct (Z.eq_dec (l_tT lx) t) as [E|NE].
+        -- left. apply in_app_iff. right. rewrite E in I. unfold wheel_get in I. rewrite G in I. exact I.
+        -- right; right. split; [lia|]. unfold s2. cbn. rewrite wheel_get_adel.
+           destruct (lkey t =? lkey (l_tT lx)) eqn:EQ; auto. apply N.eqb_eq in EQ.
+           apply lkey_inj in EQ; lia.
+    + right. eapply Bad_incl; [exact INC|]. eapply Bad_frame; [|exact NF]. exact BD.
+  - destruct B as [[W1 EMP]|BD]; [left|right; auto].
+    intros x lx LVx. destruct (W1 x lx LVx) as [I|[(d & RR & I)|(RR & I)]].
+    + left; auto.
+    + right; left. exists d. split; auto. assert (d <> t); [|lia]. intros ->. rewrite EMP in I. destruct I.
+    + right; right. split; auto. assert (l_tT lx <> t); [|lia]. intros E. rewrite E in I. unfold wheel_get in I.
+      rewrite G in I. destruct I.
+Qed.
+
+(* firing the due list *)
+Lemma finish_do_timeout_dead s r : PK s -> tdead (fst (finish (do_timeout s r))) r.
+Proof.
+  intros P.
+  pose proof (do_timeout_kills core_cmd s r) as D.
+  pose proof (do_timeout_frame core_cmd s r) as F0.
+  pose proof (core_finish_frame (fst (fst (do_timeout s r))) (do_timeout s r)) as F.
+  destruct (PK_frame _ _ P F0) as [P1 K1]. specialize (F P1 K1 (tframe_refl _ _)).
+  eapply tframe_dead; eauto.
+Qed.
+
+Lemma fire_all_TW f : forall due s, PK s -> TW due f s -> TW [] f (fst (fire_all do_timeout s due)).
+Proof.
+  induction due as [|r rest IH]; intros s P W; cbn [fire_all]; [exact W|].
+  pose proof (finish_do_timeout_dead s r P) as D.
+  pose proof (core_finish_frame s (do_timeout s r) (proj1 P) (proj2 P) (do_timeout_frame core_cmd s r)) as F.
+  destruct (finish (do_timeout s r)) as [s1 e1]. cbn [fst] in *.
+  specialize (IH s1 (PK_frame _ _ P F)). destruct (fire_all do_timeout s1 rest) as [s2 e2]. cbn [fst] in *.
+  apply IH. intros x lx LVx. destruct (TW_frame _ _ _ _ W F x lx LVx) as [[<-|I]|X]; [|left; auto|right; auto].
+  exfalso. destruct LVx as [Gx Lx]. rewrite (D _ Gx) in Lx. discriminate.
+Qed.
+
+Definition has_panic (ev : list event) : Prop := exists site, In (EPanic site) ev.
+
+Lemma fire_all_bad : forall due s, PK s -> Bad due s -> has_panic (snd (fire_all do_timeout s due)).
+Proof.
+  induction due as [|r rest IH]; intros s P (x & I & G); [destruct I|]. cbn [fire_all].
+  destruct (N.eq_dec r x) as [->|NE].
+  - assert (finish (do_timeout s x) = (s, [EPanic "uaf:doTimeOut"%string])) as E.
+    { unfold do_timeout. rewrite G. reflexivity. }
+    rewrite E. destruct (fire_all do_timeout s rest) as [s2 e2]. cbn [snd]. eexists. left. reflexivity.
+  - destruct I as [->|I]; [congruence|].
+    pose proof (nfinish_frame s (do_timeout s r) P (do_timeout_frame NoC s r)) as F.
+    destruct (finish (do_timeout s r)) as [s1 e1]. cbn [fst] in F.
+    specialize (IH s1 (PK_frame _ _ P (nframe_cframe _ _ F))).
+    destruct (fire_all do_timeout s1 rest) as [s2 e2]. cbn [snd] in *.
+    destruct IH as (site & J). { exists x. split; auto. eapply nframe_absent; eauto. }
+    exists site. apply in_app_iff. right; auto.
+Qed.
+
+(* the loop over the elapsed seconds *)
+Lemma sweep_t_secs_TW nowv : forall n s t,
+  TA s -> checkT s = (nowv + 1)%Z -> (0 <= t)%Z -> (t + Z.of_nat n = nowv + 1)%Z -> (nowv < t + 7)%Z ->
+  TW [] t s ->
+  TW [] (nowv + 1) (fst (sweep_t_secs n s t nowv)) \/ has_panic (snd (sweep_t_secs n s t nowv)).
+Proof.
+  induction n as [|n IH]; intros s t T CK T0 TN LAG W; cbn [sweep_t_secs].
+  - left. cbn. replace (nowv + 1)%Z with t by lia. exact W.
+  - pose proof (collect_timeouts_TA s t nowv T CK ltac:(lia)) as A.
+    pose proof (collect_timeouts_TW s t nowv ltac:(lia) LAG T CK W) as B.
+    destruct (collect_timeouts s t nowv) as [s1 due]. destruct A as (T1 & CK1 & N1 & D1).
+    pose proof (fire_all_TA due s1 T1) as X. cbv zeta in X. destruct X as (T2 & CK2 & N2).
+    pose proof (fire_all_TW (t + 1) due s1 (TA_PK _ T1)) as Y.
+    pose proof (fire_all_bad due s1 (TA_PK _ T1)) as Z.
+    destruct (fire_all do_timeout s1 due) as [s2 e2]. cbn [fst snd] in *.
+    destruct B as [W1|BD].
+    + specialize (IH s2 (t + 1)%Z T2 ltac:(congruence) ltac:(lia) ltac:(lia) ltac:(lia) (Y W1)).
+      destruct (sweep_t_secs n s2 (t + 1) nowv) as [s3 e3]. cbn [fst snd] in *.
+      destruct IH as [|(site & J)]; auto. right. exists site. apply in_app_iff; auto.
+    + destruct (Z BD) as (site & J). destruct (sweep_t_secs n s2 (t + 1) nowv) as [s3 e3]. cbn [snd].
+      right. exists site. apply in_app_iff; auto.
+Qed.
+
+(* C05 (b): after a timeout sweep that lags by fewer than 7 seconds and does not crash on a freed record, every live
+   waiter is stored for a second > now; in particular no live waiter has a deadline that has been reached. *)
+Theorem sweep_timeouts_no_loss s :
+  TA s -> TW [] (checkT s) s -> (now s < checkT s + 7)%Z -> ~ has_panic (snd (sweep_timeouts s)) ->
+  TW [] (now s + 1) (fst (sweep_timeouts s))
+  /\ forall r l, tlive (fst (sweep_timeouts s)) r l -> (now s < l_tT l)%Z.
+Proof.
+  intros T W LAG NP. unfold sweep_timeouts in *.
+  pose proof (ta_chk _ T) as CH. pose proof (ta_chk0 _ T) as C0.
+  destruct (sweep_t_secs_TW (now s) (Z.to_nat (now s + 1 - checkT s)) (s <| checkT := (now s + 1)%Z |>) (checkT s)) as [X|X];
+    auto; try lia.
+  - apply TA_set_checkT; auto.
+  - split; auto. intros r l LV. destruct (X r l LV) as [[]|[(d & R & _)|(R & _)]]; lia.
+  - exfalso. apply NP. exact X.
+Qed.
